@@ -1018,6 +1018,8 @@ class KmipEngine(object):
             if attribute_name == "Name":
                 attribute_list = managed_object.names
                 if attribute_value is not None:
+                    if isinstance(attribute_value, attributes.Name):
+                        attribute_value = attribute_value.name_value
                     attribute_value = attribute_value.value
             elif attribute_name == "Application Specific Information":
                 attribute_list = managed_object.app_specific_info
@@ -1041,7 +1043,7 @@ class KmipEngine(object):
                 )
 
             # Generically handle attribute deletion.
-            if attribute_value:
+            if attribute_value is not None:
                 if attribute_list.count(attribute_value):
                     attribute_list.remove(attribute_value)
                 else:
